@@ -5,6 +5,7 @@
 //	{"audit":0|1,
 //	 "svcs":[[hub,chain,ordered,avail,registered,[blacklisted service numbers]],...],   service k = entry k-1, k in 1..9
 //	 "hubs":[[k,avail],...],                     remote hub k (k>=1) has bitxhub id 1356+k, registered as relay-chain appchain
+//	 "groups":[[from,tag,[[dst,"index"],...]],...]  optional: the Group map carried by the IBTPs of group (from,tag)
 //	 "qids":[[from,to,"index"],...], "qgids":[[from,g,count],...], "qhs":["height",...],   what to query after each block
 //	 "blocks":[ [op,...] | 0 , ... ]}            0 = restart the node (no block)
 //
@@ -66,6 +67,9 @@ type history struct {
 	Qgids  [][]json.Number   `json:"qgids"`
 	Qhs    []json.Number     `json:"qhs"`
 	Blocks []json.RawMessage `json:"blocks"`
+	// optional declarations of one-to-many groups: [from, tag, [[dst, "index"], ...]]: the IBTPs of group
+	// (from, tag) carry Group = {full id of dst -> index}; groups without a declaration carry {"k1".."kn" -> tag}
+	Groups []json.RawMessage `json:"groups"`
 }
 
 type svc struct {
@@ -78,8 +82,33 @@ type svc struct {
 type world struct {
 	svcs   []svc          // index k-1
 	byFull map[string]int // full id -> k
-	gids   map[string][3]uint64
-	chains map[string]int // chain name -> number (for output)
+	gids   map[string][3]uint64 // global id string (as stored by the contract) -> declared group
+	chains map[string]int       // chain name -> number (for output)
+	decl   map[[2]uint64]*pb.StringUint64Map
+	kids   map[[3]uint64][]string // declared group -> ids of the requests that carried it, in order of appearance
+	kidSet map[string]bool
+}
+
+// the Group field of the IBTPs of group (from, tag)
+func (w *world) group(from int, g, count uint64) *pb.StringUint64Map {
+	if g == 0 {
+		return nil
+	}
+	if m, ok := w.decl[[2]uint64{uint64(from), g}]; ok {
+		return m
+	}
+	return groupOf(g, count)
+}
+
+// the global id the contract filed the declared group under: read back from the ledger through the
+// group's own children (child id -> global id), never recomputed
+func (w *world) resolve(c *hx.Chain, tm *types.Address, q [3]uint64) (string, bool) {
+	for _, id := range w.kids[q] {
+		if ok, val := c.ViewLdg.GetState(tm, []byte(id)); ok && len(val) > 0 {
+			return string(val), true
+		}
+	}
+	return "", false
 }
 
 const localHub = 1356
@@ -114,17 +143,6 @@ func groupOf(g, count uint64) *pb.StringUint64Map {
 		m.Vals = append(m.Vals, g)
 	}
 	return m
-}
-
-// same computation as contracts.genGlobalTxID (unexported)
-func globalID(from string, grp *pb.StringUint64Map) string {
-	m := make(map[string]uint64)
-	for i, key := range grp.Keys {
-		m[key] = grp.Vals[i]
-	}
-	data, _ := json.Marshal(m)
-	h := sha256.Sum256(append([]byte(from), data...))
-	return types.NewHash(h[:]).String()
 }
 
 var codeRe = regexp.MustCompile(`[12][01][0-9]{5}`)
@@ -265,7 +283,8 @@ func runHistory(line []byte) (interface{}, error) {
 	out := map[string]interface{}{"err": ""}
 	fail := func(msg string) (interface{}, error) { out["err"] = msg; out["blocks"] = []interface{}{}; return out, nil }
 
-	w := &world{byFull: map[string]int{}, gids: map[string][3]uint64{}, chains: map[string]int{}}
+	w := &world{byFull: map[string]int{}, gids: map[string][3]uint64{}, chains: map[string]int{}, decl: map[[2]uint64]*pb.StringUint64Map{},
+		kids: map[[3]uint64][]string{}, kidSet: map[string]bool{}}
 	hubAvail := map[int]bool{}
 	for _, hb := range h.Hubs {
 		hubAvail[hb[0]] = hb[1] != 0
@@ -290,6 +309,26 @@ func runHistory(line []byte) (interface{}, error) {
 	}
 	for c := 1; c <= 8; c++ {
 		w.chains[chainName(c)] = c
+	}
+	for _, raw := range h.Groups {
+		var a []json.RawMessage
+		if err := json.Unmarshal(raw, &a); err != nil || len(a) != 3 {
+			return fail("bad group declaration")
+		}
+		var from, tag json.Number
+		var ents [][]json.Number
+		if json.Unmarshal(a[0], &from) != nil || json.Unmarshal(a[1], &tag) != nil || json.Unmarshal(a[2], &ents) != nil {
+			return fail("bad group declaration")
+		}
+		m := &pb.StringUint64Map{}
+		for _, e := range ents {
+			if len(e) != 2 {
+				return fail("bad group declaration entry")
+			}
+			m.Keys = append(m.Keys, w.full(in(e[0])))
+			m.Vals = append(m.Vals, u64(e[1]))
+		}
+		w.decl[[2]uint64{uint64(in(from)), u64(tag)}] = m
 	}
 
 	c, err := hx.NewChain(hx.ChainOpts{Quiet: true, EnableAudit: h.Audit != 0, GasPrice: h.Gas})
@@ -384,9 +423,14 @@ func runHistory(line []byte) (interface{}, error) {
 				if len(op) != 8 {
 					return fail("bad request op")
 				}
-				grp := groupOf(u64(op[5]), u64(op[6]))
+				grp := w.group(in(op[1]), u64(op[5]), u64(op[6]))
 				if grp != nil {
-					w.gids[globalID(w.full(in(op[1])), grp)] = [3]uint64{uint64(in(op[1])), u64(op[5]), u64(op[6])}
+					q := [3]uint64{uint64(in(op[1])), u64(op[5]), u64(op[6])}
+					id := idOf(in(op[1]), in(op[2]), u64(op[3]))
+					if !w.kidSet[fmt.Sprint(q, id)] {
+						w.kidSet[fmt.Sprint(q, id)] = true
+						w.kids[q] = append(w.kids[q], id)
+					}
 				}
 				txs = append(txs, mkIBTP(in(op[1]), in(op[2]), u64(op[3]), pb.IBTP_INTERCHAIN, i64(op[4]), grp, nil, in(op[7]) != 0))
 			case 2:
@@ -396,7 +440,7 @@ func runHistory(line []byte) (interface{}, error) {
 				typ := map[int]pb.IBTP_Type{1: pb.IBTP_RECEIPT_SUCCESS, 2: pb.IBTP_RECEIPT_FAILURE, 3: pb.IBTP_RECEIPT_ROLLBACK, 4: pb.IBTP_RECEIPT_ROLLBACK_END}[in(op[4])]
 				var rgrp *pb.StringUint64Map
 				if len(op) == 8 {
-					rgrp = groupOf(u64(op[6]), u64(op[7])) // a receipt that carries a Group field
+					rgrp = w.group(in(op[1]), u64(op[6]), u64(op[7])) // a receipt that carries a Group field
 				}
 				txs = append(txs, mkIBTP(in(op[1]), in(op[2]), u64(op[3]), typ, 0, rgrp, nil, in(op[5]) != 0))
 			case 3:
@@ -461,6 +505,30 @@ func runHistory(line []byte) (interface{}, error) {
 		}
 		height := ev.Block.BlockHeader.Number
 		ob := map[string]interface{}{}
+		// learn the global ids the contract uses for the declared groups seen so far (first claim wins)
+		c.ViewLdg.Clear()
+		{
+			qs := make([][3]uint64, 0, len(w.kids))
+			for q := range w.kids {
+				qs = append(qs, q)
+			}
+			sort.Slice(qs, func(i, j int) bool {
+				if qs[i][0] != qs[j][0] {
+					return qs[i][0] < qs[j][0]
+				}
+				if qs[i][1] != qs[j][1] {
+					return qs[i][1] < qs[j][1]
+				}
+				return qs[i][2] < qs[j][2]
+			})
+			for _, q := range qs {
+				if gid, ok := w.resolve(c, tm, q); ok {
+					if _, taken := w.gids[gid]; !taken {
+						w.gids[gid] = q
+					}
+				}
+			}
+		}
 		// receipts
 		rc := [][]int{}
 		for i, tx := range txs {
@@ -564,9 +632,14 @@ func runHistory(line []byte) (interface{}, error) {
 		}
 		ch := []interface{}{}
 		for _, q := range h.Qgids {
-			grp := groupOf(u64(q[1]), u64(q[2]))
-			gid := globalID(w.full(in(q[0])), grp)
-			w.gids[gid] = [3]uint64{uint64(in(q[0])), u64(q[1]), u64(q[2])}
+			c.ViewLdg.Clear()
+			gid, found := w.resolve(c, tm, [3]uint64{uint64(in(q[0])), u64(q[1]), u64(q[2])})
+			if !found {
+				// no child of this declared group is filed anywhere: the group does not exist
+				st = append(st, -1)
+				ch = append(ch, []interface{}{0, 0, "0", 0, []interface{}{}})
+				continue
+			}
 			st = append(st, status(gid))
 			c.ViewLdg.Clear()
 			ok, val := c.ViewLdg.GetState(tm, []byte(contracts.GlobalTxInfoKey(gid)))
